@@ -31,7 +31,7 @@ CORE_NAMES = {
     100: "call panicked",
     110: "C01: a stale/weaker claim changed state, fired an event or was re-gossiped",
     111: "C01: a member's (incarnation, state) key regressed without a legitimate reclaim",
-    112: "C01: reaping removed a record that is not an old dead/left one",
+    112: "C01/C03: reaping (resetNodes at the wrap of the probe cursor) removed a record that is not an old dead/left one",
     120: "C02: running node does not list itself alive (or own record ahead of the local incarnation)",
     121: "C02: refutation does not outrank the accusation", 122: "C02: no alive broadcast carrying the new incarnation", 123: "C02: health score not raised by the refutation",
     130: "C07: replaying the events does not give Members()", 131: "C07: join/leave/update grammar broken", 132: "C07: callbacks overlapped",
@@ -47,10 +47,10 @@ CORE_NAMES = {
     170: "C09: a peer's dead/suspect hearsay removed a member directly",
 }
 FAMILIES["core"] = {
-    "name": "core", "props": ["C01", "C02", "C07", "C08", "C18", "C06", "C09"], "models": "Core.v",
+    "name": "core", "props": ["C01", "C02", "C07", "C08", "C18", "C06", "C09", "C03"], "models": "Core.v",
     "harness": COMMON + ["zz_vf_core_test.go"], "test": "TestVfCore",
     "n": {"quick": 1200, "thorough": 30000},
-    "codes": [(100, 109, ["C01", "C02", "C07", "C08", "C18", "C20"]), (110, 119, ["C01"]), (120, 129, ["C02"]), (130, 139, ["C07"]),
+    "codes": [(100, 109, ["C01", "C02", "C07", "C08", "C18", "C20"]), (110, 111, ["C01"]), (112, 112, ["C01", "C03"]), (113, 119, ["C01"]), (120, 129, ["C02"]), (130, 139, ["C07"]),
               (140, 149, ["C08"]), (150, 159, ["C18"]), (160, 169, ["C06"]), (170, 179, ["C09"])],
     "code_names": CORE_NAMES,
     "assumptions": ["suspicionTimeout / remainingSuspicionTime (float64 log) enter the model as the values the real functions returned (table per case, n <= 10 nodes)",
